@@ -793,7 +793,7 @@ Proof.
 Qed.
 
 Lemma tsum_zero f ts : Forall (fun t => f t = 0) ts -> tsum f ts = 0.
-Proof. induction 1; cbn; lia. Qed.
+Proof. unfold tsum. induction 1 as [|t ts Ht _ IH]; cbn; [auto|]. rewrite Ht, IH. auto. Qed.
 
 Lemma tsum_ge f ts i t : nth_error ts i = Some t -> f t <= tsum f ts.
 Proof.
@@ -810,9 +810,9 @@ Proof.
 Qed.
 
 Lemma lockop_target_lt hl t n :
-  thread_ok hl t -> (lockop_of t = LAcq n \/ lockop_of t = LReq n \/ lockop_of t = LRLock n) -> n < hl.
+  0 < hl -> thread_ok hl t -> (lockop_of t = LAcq n \/ lockop_of t = LReq n \/ lockop_of t = LRLock n) -> n < hl.
 Proof.
-  intros [_ [_ P]]. destruct t as [o p hs]. unfold lockop_of. cbn [tpc held] in *.
+  intros L0 [_ [_ P]]. destruct t as [o p hs]. unfold lockop_of. cbn [tpc held] in *.
   destruct p; cbn in *; intros [E|[E|E]]; try discriminate;
     repeat (match goal with
             | H : context [match ?x with _ => _ end] |- _ => is_var x; destruct x
@@ -824,9 +824,9 @@ Proof.
            end; auto.
 Qed.
 
-Lemma pcnt_zero_lt hl t n : thread_ok hl t -> hl <= n -> pcnt n t = 0.
+Lemma pcnt_zero_lt hl t n : 0 < hl -> thread_ok hl t -> hl <= n -> pcnt n t = 0.
 Proof.
-  intros T L. unfold pcnt. destruct (lockop_of t) eqn:E; auto.
+  intros L0 T L. unfold pcnt. destruct (lockop_of t) eqn:E; auto.
   destruct (Nat.eqb_spec n0 n); auto. subst.
   assert (n < hl) by (eapply lockop_target_lt; eauto). lia.
 Qed.
@@ -841,5 +841,934 @@ Proof.
     assert (Z : forall f, (forall o, f (TH o (PStart o) []) = 0) ->
                           tsum f (map (fun o => TH o (PStart o) []) ops) = 0).
     { intros f Hf. induction ops as [|o ops IH]; cbn; auto. rewrite Hf. auto. }
-    rewrite !Z; auto.
+    repeat split; symmetry;
+      [apply (Z (fun t => cnt 0 MR (held t)))|apply (Z (fun t => cnt 0 MW (held t)))|apply (Z (pcnt 0))];
+      auto.
 Qed.
+
+Lemma tsum_same f ts i t t' :
+  nth_error ts i = Some t -> f t' = f t -> tsum f (set_nth ts i t') = tsum f ts.
+Proof. intros E H. pose proof (tsum_set_nth f ts i t t' E). lia. Qed.
+
+Lemma tsum_up f ts i t t' :
+  nth_error ts i = Some t -> f t' = S (f t) -> tsum f (set_nth ts i t') = S (tsum f ts).
+Proof. intros E H. pose proof (tsum_set_nth f ts i t t' E). lia. Qed.
+
+Lemma tsum_down f ts i t t' :
+  nth_error ts i = Some t -> f t = S (f t') -> S (tsum f (set_nth ts i t')) = tsum f ts.
+Proof. intros E H. pose proof (tsum_set_nth f ts i t t' E). lia. Qed.
+
+Lemma cnt_cons_eq n m r : cnt n m ((n, m) :: r) = S (cnt n m r).
+Proof. cbn. rewrite Nat.eqb_refl. destruct m; reflexivity. Qed.
+
+Lemma cnt_cons_neq n m a b r : (a <> n \/ b <> m) -> cnt n m ((a, b) :: r) = cnt n m r.
+Proof.
+  intros H. cbn. destruct (Nat.eqb_spec a n); cbn; auto.
+  destruct b, m; cbn; auto; destruct H; congruence.
+Qed.
+
+Lemma pcnt_not_acq n t : not_acq t -> pcnt n t = 0.
+Proof. intros H. unfold pcnt. destruct (lockop_of t) eqn:E; auto. exfalso. eapply H; eauto. Qed.
+
+Lemma pcnt_other n t : (forall a, lockop_of t <> LAcq a) -> pcnt n t = 0.
+Proof. apply pcnt_not_acq. Qed.
+
+Lemma Forall_nth_error {A} (P : A -> Prop) l i x : Forall P l -> nth_error l i = Some x -> P x.
+Proof. intros F E. rewrite Forall_forall in F. apply F. eapply nth_error_In; eauto. Qed.
+
+Lemma acct_step b s i s' : Inv s -> step_gen b s i = Some s' -> acct s'.
+Proof.
+  intros [HO [TO AC]] ST. unfold step_gen in ST.
+  destruct (nth_error (thr s) i) as [t|] eqn:Et; [|discriminate].
+  destruct (tstep_gen b (hp s) t) as [[h' t']|] eqn:Ets; [|discriminate]. inv ST.
+  pose proof (Forall_nth_error _ _ _ _ TO Et) as Tt.
+  pose proof (tstep_shape _ _ _ _ _ Ets) as SH.
+  destruct s as [h ts]. unfold acct in AC. cbn [hp thr] in *.
+  assert (L0 : 0 < List.length h) by apply HO.
+  intros n x' E'. cbn [hp thr] in *.
+  destruct (lockop_of t) eqn:LO.
+  - (* local step *)
+    destruct SH as [-> ->].
+    pose proof (local_step_mu h (tpc t)) as [SM FM].
+    assert (NA : not_acq (TH (top t) (snd (local_step h (tpc t))) (held t))).
+    { apply local_step_not_acq. destruct t; exact LO. }
+    rewrite (tsum_same (fun t0 => cnt n MR (held t0)) ts i t _ Et) by reflexivity.
+    rewrite (tsum_same (fun t0 => cnt n MW (held t0)) ts i t _ Et) by reflexivity.
+    rewrite (tsum_same (pcnt n) ts i t _ Et)
+      by (rewrite pcnt_not_acq by exact NA; unfold pcnt; rewrite LO; reflexivity).
+    destruct (Nat.lt_ge_cases n (List.length h)) as [Ln|Ln].
+    + destruct (nth_error h n) as [x|] eqn:Ex; [|apply nth_error_None in Ex; lia].
+      destruct (SM _ _ Ex) as [x'' [Ex'' M]]. rewrite E' in Ex''. inv Ex''.
+      destruct (AC _ _ Ex) as [A1 [A2 A3]]. unfold mu_of in M. injection M as M1 M2 M3.
+      cbn [thr] in *. unfold wbit in *. rewrite M1, M2, M3. auto.
+    + pose proof (FM _ _ E' Ln) as M. unfold mu_of in M. injection M as M1 M2 M3.
+      unfold wbit. rewrite M1, M2, M3.
+      rewrite !tsum_zero; auto.
+      * eapply Forall_impl; [|exact TO]. intros t0 T0. eapply pcnt_zero_lt; eauto.
+      * eapply Forall_impl; [|exact TO]. intros t0 [_ [I0 _]]. eapply cnt_zero_lt; eauto.
+      * eapply Forall_impl; [|exact TO]. intros t0 [_ [I0 _]]. eapply cnt_zero_lt; eauto.
+  - (* RLock *)
+    destruct SH as [CR [-> ->]].
+    assert (NA : not_acq (TH (top t) (after_lock (tpc t)) ((n0, MR) :: held t))).
+    { destruct t as [o p hs]. apply (after_lock_not_acq o p hs); cbn [top tpc held] in *; rewrite LO; discriminate. }
+    rewrite (tsum_same (pcnt n) ts i t _ Et)
+      by (rewrite pcnt_not_acq by exact NA; unfold pcnt; rewrite LO; reflexivity).
+    unfold do_rlock in E'. destruct (Nat.eq_dec n0 n) as [->|D].
+    + destruct (nth_error h n) as [x|] eqn:Ex; [|rewrite nth_upd_node_none in E' by auto; discriminate].
+      erewrite nth_upd_node_eq in E' by eauto. inv E'. cbn [rd wr pw]. unfold wbit; cbn [wr].
+      destruct (AC _ _ Ex) as [A1 [A2 A3]].
+      rewrite (tsum_up (fun t0 => cnt n MR (held t0)) ts i t _ Et) by (cbn [held]; apply cnt_cons_eq).
+      rewrite (tsum_same (fun t0 => cnt n MW (held t0)) ts i t _ Et)
+        by (cbn [held]; apply cnt_cons_neq; right; discriminate).
+      unfold wbit in A2. auto.
+    + rewrite nth_upd_node_neq in E' by auto. destruct (AC _ _ E') as [A1 [A2 A3]].
+      rewrite (tsum_same (fun t0 => cnt n MR (held t0)) ts i t _ Et) by (cbn [held]; apply cnt_cons_neq; auto).
+      rewrite (tsum_same (fun t0 => cnt n MW (held t0)) ts i t _ Et) by (cbn [held]; apply cnt_cons_neq; auto).
+      auto.
+  - (* Lock announced *)
+    destruct SH as [-> ->].
+    assert (LA : lockop_of (TH (top t) (after_lock (tpc t)) (held t)) = LAcq n0).
+    { destruct t as [o p hs]. apply (after_lock_req o p hs). exact LO. }
+    rewrite (tsum_same (fun t0 => cnt n MR (held t0)) ts i t _ Et) by reflexivity.
+    rewrite (tsum_same (fun t0 => cnt n MW (held t0)) ts i t _ Et) by reflexivity.
+    unfold do_req in E'. destruct (Nat.eq_dec n0 n) as [->|D].
+    + destruct (nth_error h n) as [x|] eqn:Ex; [|rewrite nth_upd_node_none in E' by auto; discriminate].
+      erewrite nth_upd_node_eq in E' by eauto. inv E'. cbn [rd wr pw]. unfold wbit; cbn [wr].
+      destruct (AC _ _ Ex) as [A1 [A2 A3]].
+      rewrite (tsum_up (pcnt n) ts i t _ Et)
+        by (unfold pcnt; rewrite LA, LO, Nat.eqb_refl; reflexivity).
+      unfold wbit in A2. auto.
+    + rewrite nth_upd_node_neq in E' by auto. destruct (AC _ _ E') as [A1 [A2 A3]].
+      rewrite (tsum_same (pcnt n) ts i t _ Et).
+      * auto.
+      * unfold pcnt. rewrite LA, LO. destruct (Nat.eqb_spec n0 n); congruence.
+  - (* Lock acquired *)
+    destruct SH as [CL [-> ->]].
+    assert (NA : not_acq (TH (top t) (after_lock (tpc t)) ((n0, MW) :: held t))).
+    { destruct t as [o p hs]. apply (after_lock_not_acq o p hs); cbn [top tpc held] in *; rewrite LO; discriminate. }
+    unfold do_acq in E'. destruct (Nat.eq_dec n0 n) as [->|D].
+    + unfold can_lock in CL.
+      destruct (nth_error h n) as [x|] eqn:Ex; [|discriminate].
+      erewrite nth_upd_node_eq in E' by eauto. inv E'. cbn [rd wr pw]. unfold wbit; cbn [wr].
+      destruct (AC _ _ Ex) as [A1 [A2 A3]].
+      apply andb_true_iff in CL. destruct CL as [C1 C2]. apply negb_true_iff in C1.
+      apply Nat.eqb_eq in C2. unfold wbit in A2. rewrite C1 in A2.
+      rewrite (tsum_same (fun t0 => cnt n MR (held t0)) ts i t _ Et)
+        by (cbn [held]; apply cnt_cons_neq; right; discriminate).
+      rewrite (tsum_up (fun t0 => cnt n MW (held t0)) ts i t _ Et) by (cbn [held]; apply cnt_cons_eq).
+      pose proof (tsum_down (pcnt n) ts i t (TH (top t) (after_lock (tpc t)) ((n, MW) :: held t)) Et) as PD.
+      rewrite (pcnt_not_acq _ _ NA) in PD. unfold pcnt at 1 in PD. rewrite LO, Nat.eqb_refl in PD.
+      specialize (PD eq_refl). split; [auto|]. split; [lia|lia].
+    + rewrite nth_upd_node_neq in E' by auto. destruct (AC _ _ E') as [A1 [A2 A3]].
+      rewrite (tsum_same (fun t0 => cnt n MR (held t0)) ts i t _ Et) by (cbn [held]; apply cnt_cons_neq; auto).
+      rewrite (tsum_same (fun t0 => cnt n MW (held t0)) ts i t _ Et) by (cbn [held]; apply cnt_cons_neq; auto).
+      rewrite (tsum_same (pcnt n) ts i t _ Et).
+      * auto.
+      * rewrite pcnt_not_acq by exact NA. unfold pcnt. rewrite LO.
+        destruct (Nat.eqb_spec n0 n); congruence.
+  - (* release *)
+    destruct SH as [m [md [hs [Hh [-> ->]]]]].
+    assert (NA : not_acq (TH (top t) (after_lock (tpc t)) hs)).
+    { destruct t as [o p hs0]. apply (after_lock_not_acq o p hs0); cbn [top tpc held] in *; rewrite LO; discriminate. }
+    rewrite (tsum_same (pcnt n) ts i t _ Et)
+      by (rewrite pcnt_not_acq by exact NA; unfold pcnt; rewrite LO; reflexivity).
+    destruct (Nat.eq_dec m n) as [->|D].
+    + destruct (nth_error h n) as [x|] eqn:Ex.
+      2:{ destruct md; unfold do_rel in E'; rewrite nth_upd_node_none in E' by auto; discriminate. }
+      destruct (AC _ _ Ex) as [A1 [A2 A3]].
+      destruct md; unfold do_rel in E'; erewrite nth_upd_node_eq in E' by eauto; inv E';
+        cbn [rd wr pw]; unfold wbit; cbn [wr].
+      * pose proof (tsum_down (fun t0 => cnt n MR (held t0)) ts i t (TH (top t) (after_lock (tpc t)) hs) Et) as PD.
+        cbn [held] in PD. rewrite Hh, cnt_cons_eq in PD. specialize (PD eq_refl).
+        rewrite (tsum_same (fun t0 => cnt n MW (held t0)) ts i t _ Et)
+          by (cbn [held]; rewrite Hh; symmetry; apply cnt_cons_neq; right; discriminate).
+        unfold wbit in A2. split; [lia|auto].
+      * pose proof (tsum_down (fun t0 => cnt n MW (held t0)) ts i t (TH (top t) (after_lock (tpc t)) hs) Et) as PD.
+        cbn [held] in PD. rewrite Hh, cnt_cons_eq in PD. specialize (PD eq_refl).
+        rewrite (tsum_same (fun t0 => cnt n MR (held t0)) ts i t _ Et)
+          by (cbn [held]; rewrite Hh; symmetry; apply cnt_cons_neq; right; discriminate).
+        unfold wbit in A2. split; [auto|]. split; [|auto]. destruct (wr x); lia.
+    + assert (E'' : nth_error h n = Some x').
+      { destruct md; unfold do_rel in E'; rewrite nth_upd_node_neq in E' by auto; exact E'. }
+      destruct (AC _ _ E'') as [A1 [A2 A3]].
+      rewrite (tsum_same (fun t0 => cnt n MR (held t0)) ts i t _ Et)
+        by (cbn [held]; rewrite Hh; symmetry; apply cnt_cons_neq; auto).
+      rewrite (tsum_same (fun t0 => cnt n MW (held t0)) ts i t _ Et)
+        by (cbn [held]; rewrite Hh; symmetry; apply cnt_cons_neq; auto).
+      auto.
+Qed.
+
+Lemma Inv_step b s i s' : Inv s -> step_gen b s i = Some s' -> Inv s'.
+Proof.
+  intros I ST. pose proof (acct_step _ _ _ _ I ST) as AC.
+  destruct I as [HO [TO _]]. unfold step_gen in ST.
+  destruct (nth_error (thr s) i) as [t|] eqn:Et; [|discriminate].
+  destruct (tstep_gen b (hp s) t) as [[h' t']|] eqn:Ets; [|discriminate]. inv ST.
+  pose proof (Forall_nth_error _ _ _ _ TO Et) as Tt.
+  destruct (tstep_ok _ _ _ _ _ HO Tt Ets) as [HO' [Ln Tt']].
+  split; [exact HO'|]. split; [|exact AC]. cbn [hp thr].
+  apply Forall_forall. intros t0 H0. apply In_set_nth in H0. destruct H0 as [->|H0]; [exact Tt'|].
+  rewrite Forall_forall in TO. eapply thread_ok_mono; [exact Ln|]. apply TO. exact H0.
+Qed.
+
+Theorem reach_Inv ops s : reach ops s -> Inv s.
+Proof. induction 1; [apply Inv_init|eapply Inv_step; eauto]. Qed.
+
+(** * Theorems *)
+
+(** ** lock coupling *)
+
+Lemma pc_rooted hl hs p : sorted_desc hs -> pc_ok hl hs p -> is_handle_pc p = false -> rooted hs.
+Proof.
+  intros S P H. destruct p; cbn in *; try discriminate;
+    repeat match goal with
+           | H : _ /\ _ |- _ => destruct H
+           | H : waiting _ _ _ |- _ => destruct H as [_ [_ [_ ?]]]
+           | H : inside _ _ _ |- _ => destruct H as [_ ?]
+           end; subst; auto; try (left; reflexivity); try (right; exists MW; left; reflexivity).
+Qed.
+
+(** In every reachable state, a thread that is not a leaf-handle operation
+    and holds any lock holds the root lock (it is the oldest lock it holds). *)
+Theorem lock_coupling ops s i t :
+  reach ops s -> nth_error (thr s) i = Some t -> is_handle_pc (tpc t) = false ->
+  held t <> [] -> exists m, In (0, m) (held t).
+Proof.
+  intros R E H NE. destruct (reach_Inv _ _ R) as [_ [TO _]].
+  destruct (Forall_nth_error _ _ _ _ TO E) as [S [_ P]].
+  destruct (pc_rooted _ _ _ S P H) as [Z|Z]; [contradiction|exact Z].
+Qed.
+
+(** locks are taken in strictly increasing node-id order; children have larger
+    ids than their parents, so this is strictly increasing depth *)
+Theorem lock_order ops s i t n :
+  reach ops s -> nth_error (thr s) i = Some t ->
+  (lockop_of t = LRLock n \/ lockop_of t = LReq n \/ lockop_of t = LAcq n) ->
+  Forall (fun x => fst x < n) (held t).
+Proof.
+  intros R E L. destruct (reach_Inv _ _ R) as [_ [TO _]].
+  destruct (Forall_nth_error _ _ _ _ TO E) as [S [_ P]].
+  destruct t as [o p hs]. unfold lockop_of in L. cbn [tpc held] in *.
+  destruct p; cbn in *; destruct L as [L|[L|L]]; try discriminate;
+    repeat (match goal with
+            | H : context [match ?x with _ => _ end] |- _ => is_var x; destruct x
+            end; cbn in *; try discriminate);
+    inv L;
+    repeat match goal with
+           | H : _ /\ _ |- _ => destruct H
+           | H : waiting _ _ _ |- _ => destruct H as [_ [? _]]
+           end; subst; auto; try constructor.
+Qed.
+
+(** ** deadlock freedom *)
+
+Lemma thread_lock_order hl t n :
+  thread_ok hl t ->
+  (lockop_of t = LRLock n \/ lockop_of t = LReq n \/ lockop_of t = LAcq n) ->
+  ids_lt (held t) n.
+Proof.
+  intros [S [_ P]] L.
+  destruct t as [o p hs]. unfold lockop_of in L. cbn [tpc held] in *.
+  destruct p; cbn in *; destruct L as [L|[L|L]]; try discriminate;
+    repeat (match goal with
+            | H : context [match ?x with _ => _ end] |- _ => is_var x; destruct x
+            end; cbn in *; try discriminate);
+    inv L;
+    repeat match goal with
+           | H : _ /\ _ |- _ => destruct H
+           | H : waiting _ _ _ |- _ => destruct H as [_ [? _]]
+           end; subst; auto; try constructor.
+Qed.
+
+Lemma lrel_nonempty hl t : thread_ok hl t -> lockop_of t = LRel -> held t <> [].
+Proof.
+  intros [S [_ P]] L. destruct t as [o p hs]. unfold lockop_of in L. cbn [tpc held] in *.
+  destruct p; cbn in *; try discriminate;
+    repeat (match goal with
+            | H : context [match ?x with _ => _ end] |- _ => is_var x; destruct x
+            end; cbn in *; try discriminate);
+    repeat match goal with
+           | H : _ /\ _ |- _ => destruct H
+           | H : inside _ _ _ |- _ => destruct H as [[? ?] _]
+           | H : exists _, _ |- _ => destruct H
+           | H : frames_ok _ _ (_ :: _) |- _ => inv H
+           end; subst; try discriminate.
+Qed.
+
+Definition wants (t : thread) (n : nat) : Prop := lockop_of t = LRLock n \/ lockop_of t = LAcq n.
+
+Lemma enabled_or_wants s i t :
+  Inv s -> nth_error (thr s) i = Some t -> is_done (tpc t) = false ->
+  enabled_strict s i = true \/ exists n, wants t n /\ n < List.length (hp s).
+Proof.
+  intros [HO [TO _]] E D. pose proof (Forall_nth_error _ _ _ _ TO E) as Tt.
+  unfold enabled_strict, step_gen. rewrite E. unfold tstep_gen. rewrite D.
+  destruct (lockop_of t) eqn:LO.
+  - left; reflexivity.
+  - right. exists n. split; [left; auto|]. eapply lockop_target_lt; eauto. apply HO.
+  - left; reflexivity.
+  - right. exists n. split; [right; auto|]. eapply lockop_target_lt; eauto. apply HO.
+  - left. pose proof (lrel_nonempty _ _ Tt LO) as NE. destruct (held t) as [|[n m] hs]; [contradiction|reflexivity].
+Qed.
+
+Lemma tsum_pos f ts : 0 < tsum f ts -> exists i t, nth_error ts i = Some t /\ 0 < f t.
+Proof.
+  unfold tsum. induction ts as [|a ts IH]; cbn; [lia|]. intros H.
+  destruct (f a) as [|k] eqn:Fa.
+  - destruct (IH H) as [i [t [E P]]]. exists (S i), t. auto.
+  - exists 0, a. split; [reflexivity|lia].
+Qed.
+
+Lemma cnt_pos n m hs : 0 < cnt n m hs -> In (n, m) hs.
+Proof.
+  induction hs as [|[a b] r IH]; cbn; [lia|].
+  destruct (Nat.eqb_spec a n); cbn.
+  - destruct b, m; cbn; intros H; auto; left; subst; reflexivity.
+  - auto.
+Qed.
+
+Lemma holder_not_done hl t : thread_ok hl t -> held t <> [] -> is_done (tpc t) = false.
+Proof.
+  intros [_ [_ P]] NE. destruct (tpc t); cbn in *; auto. contradiction.
+Qed.
+
+Lemma In_ids_lt hs n a m : ids_lt hs n -> In (a, m) hs -> a < n.
+Proof. intros F I. unfold ids_lt in F. rewrite Forall_forall in F. apply (F _ I). Qed.
+
+Lemma lockop_done t : is_done (tpc t) = true -> lockop_of t = LNone.
+Proof. unfold lockop_of. destruct (tpc t); cbn; try discriminate; auto. Qed.
+
+Lemma progress_from_wants d : forall s, Inv s -> forall i t n,
+  nth_error (thr s) i = Some t -> wants t n -> n < List.length (hp s) ->
+  List.length (hp s) - n <= d -> exists j, enabled_strict s j = true.
+Proof.
+  induction d as [|d IH]; intros s I i t n E W Ln Ld; [lia|].
+  destruct I as [HO [TO AC]].
+  assert (I : Inv s) by (split; [|split]; auto).
+  (* a thread holding n leads to progress *)
+  assert (HOLD : forall j t3 m3, nth_error (thr s) j = Some t3 -> In (n, m3) (held t3) ->
+                                 exists j', enabled_strict s j' = true).
+  { intros j t3 m3 E3 I3. pose proof (Forall_nth_error _ _ _ _ TO E3) as T3.
+    assert (D3 : is_done (tpc t3) = false).
+    { eapply holder_not_done; eauto. intros Z. rewrite Z in I3. destruct I3. }
+    destruct (enabled_or_wants _ _ _ I E3 D3) as [En|[n3 [W3 L3]]]; [eauto|].
+    assert (n < n3).
+    { eapply In_ids_lt; [|exact I3]. eapply thread_lock_order; [exact T3|].
+      destruct W3; auto. }
+    eapply (IH s I j t3 n3); eauto. lia. }
+  destruct (nth_error (hp s) n) as [x|] eqn:Ex; [|apply nth_error_None in Ex; lia].
+  destruct (AC _ _ Ex) as [A1 [A2 A3]].
+  assert (RD : 0 < rd x -> exists j', enabled_strict s j' = true).
+  { intros P. rewrite A1 in P. destruct (tsum_pos _ _ P) as [j [t3 [E3 P3]]].
+    eapply HOLD; [exact E3|]. apply cnt_pos. exact P3. }
+  assert (WR : wr x = true -> exists j', enabled_strict s j' = true).
+  { intros P. unfold wbit in A2. rewrite P in A2.
+    assert (P' : 0 < tsum (fun t0 => cnt n MW (held t0)) (thr s)) by lia.
+    destruct (tsum_pos _ _ P') as [j [t3 [E3 P3]]].
+    eapply HOLD; [exact E3|]. apply cnt_pos. exact P3. }
+  (* an announced writer on n acquires as soon as nobody holds n *)
+  assert (ACQ : forall j t2, nth_error (thr s) j = Some t2 -> lockop_of t2 = LAcq n ->
+                             exists j', enabled_strict s j' = true).
+  { intros j t2 E2 L2. destruct (wr x) eqn:Wx; [apply WR; auto|].
+    destruct (rd x) as [|k] eqn:Rx; [|apply RD; lia].
+    exists j. unfold enabled_strict, step_gen. rewrite E2. unfold tstep_gen.
+    assert (D2 : is_done (tpc t2) = false).
+    { destruct (is_done (tpc t2)) eqn:D2; auto. rewrite lockop_done in L2 by auto. discriminate. }
+    rewrite D2, L2. unfold can_lock. rewrite Ex, Wx, Rx. reflexivity. }
+  destruct W as [W|W].
+  - (* a reader waits for a writer that holds or has announced *)
+    destruct (wr x) eqn:Wx; [apply WR; auto|].
+    destruct (pw x) as [|k] eqn:Px.
+    + exists i. unfold enabled_strict, step_gen. rewrite E. unfold tstep_gen.
+      assert (D : is_done (tpc t) = false).
+      { destruct (is_done (tpc t)) eqn:D; auto. rewrite lockop_done in W by auto. discriminate. }
+      rewrite D, W. unfold can_rlock. rewrite Ex, Wx, Px. reflexivity.
+    + assert (P' : 0 < tsum (pcnt n) (thr s)) by lia.
+      destruct (tsum_pos _ _ P') as [j [t2 [E2 P2]]].
+      eapply ACQ; [exact E2|]. unfold pcnt in P2. destruct (lockop_of t2); try lia.
+      destruct (Nat.eqb_spec n0 n); [subst; auto|lia].
+  - eapply ACQ; eauto.
+Qed.
+
+(** In every reachable state in which some call has not returned, some thread
+    can take a step -- even when every announced writer is given preference
+    over arriving readers. *)
+Theorem deadlock_free ops s :
+  reach ops s ->
+  (exists i t, nth_error (thr s) i = Some t /\ is_done (tpc t) = false) ->
+  exists j, enabled_strict s j = true.
+Proof.
+  intros R [i [t [E D]]]. pose proof (reach_Inv _ _ R) as I.
+  destruct (enabled_or_wants _ _ _ I E D) as [En|[n [W L]]]; [eauto|].
+  eapply progress_from_wants; eauto.
+Qed.
+
+(** ** mutual exclusion *)
+
+Definition Excl (h : heap) : Prop :=
+  forall n x, nth_error h n = Some x -> wr x = true -> rd x = 0.
+
+Lemma Excl_upd h n f :
+  Excl h ->
+  (forall x, nth_error h n = Some x -> wr (f x) = true -> rd (f x) = 0) ->
+  Excl (upd_node h n f).
+Proof.
+  intros EX Hf m x' E W. destruct (Nat.eq_dec n m) as [->|D].
+  - destruct (nth_error h m) as [x|] eqn:Ex.
+    + erewrite nth_upd_node_eq in E by eauto. inv E. eauto.
+    + rewrite nth_upd_node_none in E by auto. discriminate.
+  - rewrite nth_upd_node_neq in E by auto. eauto.
+Qed.
+
+Lemma Excl_step b s i s' : Excl (hp s) -> step_gen b s i = Some s' -> Excl (hp s').
+Proof.
+  intros EX ST. unfold step_gen in ST.
+  destruct (nth_error (thr s) i) as [t|] eqn:Et; [|discriminate].
+  destruct (tstep_gen b (hp s) t) as [[h' t']|] eqn:Ets; [|discriminate]. inv ST. cbn [hp].
+  pose proof (tstep_shape _ _ _ _ _ Ets) as SH.
+  destruct (lockop_of t) eqn:LO.
+  - destruct SH as [-> _]. pose proof (local_step_mu (hp s) (tpc t)) as [SM FM].
+    intros n x' E W. destruct (Nat.lt_ge_cases n (List.length (hp s))) as [Ln|Ln].
+    + destruct (nth_error (hp s) n) as [x|] eqn:Ex; [|apply nth_error_None in Ex; lia].
+      destruct (SM _ _ Ex) as [x'' [Ex'' M]]. rewrite E in Ex''. inv Ex''.
+      unfold mu_of in M. injection M as M1 M2 M3. rewrite M1. apply (EX _ _ Ex). congruence.
+    + pose proof (FM _ _ E Ln) as M. unfold mu_of in M. injection M as M1 M2 M3. auto.
+  - destruct SH as [CR [-> _]]. apply Excl_upd; auto. intros x Ex W. cbn in W.
+    unfold can_rlock in CR. rewrite Ex in CR. rewrite W in CR. discriminate.
+  - destruct SH as [-> _]. apply Excl_upd; auto. intros x Ex W. cbn in *. eauto.
+  - destruct SH as [CL [-> _]]. apply Excl_upd; auto. intros x Ex W. cbn.
+    unfold can_lock in CL. rewrite Ex in CL. apply andb_true_iff in CL. destruct CL as [_ C].
+    apply Nat.eqb_eq in C. exact C.
+  - destruct SH as [n [m [hs [_ [-> _]]]]]. destruct m; apply Excl_upd; auto.
+    + intros x Ex W. cbn in *. rewrite (EX _ _ Ex W). reflexivity.
+    + intros x Ex W. cbn in W. discriminate.
+Qed.
+
+Lemma reach_Excl ops s : reach ops s -> Excl (hp s).
+Proof.
+  induction 1.
+  - intros n x E W. cbn in E. destruct n as [|[|n]]; cbn in E; try discriminate. inv E. reflexivity.
+  - eapply Excl_step; eauto.
+Qed.
+
+Lemma tsum_ge2 f ts i j ti tj :
+  i <> j -> nth_error ts i = Some ti -> nth_error ts j = Some tj -> f ti + f tj <= tsum f ts.
+Proof.
+  unfold tsum. revert i j; induction ts as [|a ts IH]; intros [|i] [|j] D Ei Ej; cbn in *;
+    try discriminate; try lia.
+  - inv Ei. pose proof (tsum_ge f ts j tj Ej). unfold tsum in *. lia.
+  - inv Ej. pose proof (tsum_ge f ts i ti Ei). unfold tsum in *. lia.
+  - assert (i <> j) by lia. specialize (IH _ _ H Ei Ej). lia.
+Qed.
+
+Lemma cnt_In n m hs : In (n, m) hs -> 0 < cnt n m hs.
+Proof.
+  induction hs as [|[a b] r IH]; cbn; [tauto|]. intros [E|I].
+  - inv E. rewrite Nat.eqb_refl. destruct m; cbn; lia.
+  - specialize (IH I). lia.
+Qed.
+
+(** a write lock excludes every other holder *)
+Lemma excl_pair s i j ti tj n m :
+  Inv s -> Excl (hp s) -> i <> j ->
+  nth_error (thr s) i = Some ti -> nth_error (thr s) j = Some tj ->
+  In (n, MW) (held ti) -> In (n, m) (held tj) -> False.
+Proof.
+  intros [HO [TO AC]] EX D Ei Ej Ii Ij.
+  pose proof (Forall_nth_error _ _ _ _ TO Ei) as [_ [ILi _]].
+  assert (Ln : n < List.length (hp s)) by (eapply In_ids_lt; eauto).
+  destruct (nth_error (hp s) n) as [x|] eqn:Ex; [|apply nth_error_None in Ex; lia].
+  destruct (AC _ _ Ex) as [A1 [A2 A3]].
+  pose proof (cnt_In _ _ _ Ii) as Ci. pose proof (cnt_In _ _ _ Ij) as Cj.
+  destruct m.
+  - pose proof (tsum_ge (fun t => cnt n MW (held t)) _ _ _ Ei) as G1.
+    pose proof (tsum_ge (fun t => cnt n MR (held t)) _ _ _ Ej) as G2. cbn in G1, G2.
+    unfold wbit in A2. destruct (wr x) eqn:W; [|lia].
+    rewrite (EX _ _ Ex W) in A1. lia.
+  - pose proof (tsum_ge2 (fun t => cnt n MW (held t)) _ _ _ _ _ D Ei Ej) as G. cbn in G.
+    unfold wbit in A2. destruct (wr x); lia.
+Qed.
+
+(** ** Delete is atomic: while a Delete is inside its critical section no
+    other tree operation holds any lock (so none is inside a critical section
+    or between two lock operations of a traversal), and nobody holds the root. *)
+Theorem delete_atomic ops s i j ti tj q :
+  reach ops s -> i <> j ->
+  nth_error (thr s) i = Some ti -> nth_error (thr s) j = Some tj ->
+  tpc ti = PDelCrit q ->
+  (is_handle_pc (tpc tj) = false -> held tj = []) /\ (forall m, ~ In (0, m) (held tj)).
+Proof.
+  intros R D Ei Ej P. pose proof (reach_Inv _ _ R) as I. pose proof (reach_Excl _ _ R) as EX.
+  destruct I as [HO [TO AC]].
+  pose proof (Forall_nth_error _ _ _ _ TO Ei) as [_ [_ Pi]]. rewrite P in Pi. cbn in Pi.
+  assert (Hi : In (0, MW) (held ti)) by (rewrite Pi; left; reflexivity).
+  assert (NR : forall m, ~ In (0, m) (held tj)).
+  { intros m Hm. eapply (excl_pair s i j ti tj 0 m); eauto. split; [|split]; auto. }
+  split; [|exact NR]. intros NH.
+  pose proof (Forall_nth_error _ _ _ _ TO Ej) as [Sj [_ Pj]].
+  destruct (pc_rooted _ _ _ Sj Pj NH) as [Z|[m Z]]; [exact Z|]. exfalso. eapply NR; eauto.
+Qed.
+
+(** ** no data race (lockset style) *)
+
+(** every content access of a critical section other than Delete's is made
+    under the lock of the accessed node, writes under its write lock *)
+Lemma access_holds hl hs p h a :
+  pc_ok hl hs p -> (forall q, p <> PDelCrit q) -> In a (accesses h p) ->
+  exists m, In (fst (fst a), m) hs /\ (snd a = true -> m = MW).
+Proof.
+  intros P ND I. destruct p; cbn in I; try contradiction;
+    try (exfalso; eapply ND; reflexivity).
+  all: cbn in P.
+  all: repeat match goal with
+              | H : _ /\ _ |- _ => destruct H
+              | H : inside _ _ _ |- _ => destruct H as [[? ->] _]
+              | p : path |- _ => destruct p; cbn in I; try contradiction
+              end.
+  all: subst.
+  all: repeat match goal with
+              | H : _ \/ _ |- _ => destruct H
+              | H : False |- _ => contradiction
+              end; subst; cbn; eexists; (split; [left; reflexivity|]); auto; try discriminate.
+Qed.
+
+Definition is_del_crit (p : pc) : bool := match p with PDelCrit _ => true | _ => false end.
+
+Lemma del_crit_dec p : (exists q, p = PDelCrit q) \/ (forall q, p <> PDelCrit q).
+Proof. destruct p; try (right; intros; discriminate). left; eauto. Qed.
+
+(** In every reachable state, if two different threads are at content accesses
+    that conflict (same node, same location, at least one write), then one of
+    them is Delete's critical section and the other is an operation through a
+    retained leaf handle. *)
+Theorem no_data_race ops s i j ti tj :
+  reach ops s -> i <> j ->
+  nth_error (thr s) i = Some ti -> nth_error (thr s) j = Some tj ->
+  race_between (hp s) ti tj = true ->
+  (is_handle_pc (tpc ti) = true /\ exists q, tpc tj = PDelCrit q) \/
+  (is_handle_pc (tpc tj) = true /\ exists q, tpc ti = PDelCrit q).
+Proof.
+  intros R D Ei Ej RB. pose proof (reach_Inv _ _ R) as I. pose proof (reach_Excl _ _ R) as EX.
+  assert (I' := I). destruct I' as [HO [TO AC]].
+  pose proof (Forall_nth_error _ _ _ _ TO Ei) as [Si [_ Pi]].
+  pose proof (Forall_nth_error _ _ _ _ TO Ej) as [Sj [_ Pj]].
+  unfold race_between in RB. apply existsb_exists in RB. destruct RB as [a [Ia RB]].
+  apply existsb_exists in RB. destruct RB as [c [Ic CF]].
+  unfold conflict in CF. apply andb_true_iff in CF. destruct CF as [CF W].
+  apply andb_true_iff in CF. destruct CF as [N _]. apply Nat.eqb_eq in N.
+  destruct (del_crit_dec (tpc ti)) as [[qi Di]|NDi]; destruct (del_crit_dec (tpc tj)) as [[qj Dj]|NDj].
+  - (* two deletes *) exfalso. rewrite Di in Pi. rewrite Dj in Pj. cbn in Pi, Pj.
+    eapply (excl_pair s i j ti tj 0 MW); eauto; [rewrite Pi|rewrite Pj]; left; reflexivity.
+  - (* ti deletes *) destruct (is_handle_pc (tpc tj)) eqn:Hj; [right; eauto|]. exfalso.
+    destruct (access_holds _ _ _ _ _ Pj NDj Ic) as [m [Im _]].
+    destruct (delete_atomic ops s i j ti tj qi R D Ei Ej Di) as [Z _].
+    rewrite (Z Hj) in Im. destruct Im.
+  - (* tj deletes *) destruct (is_handle_pc (tpc ti)) eqn:Hi; [left; eauto|]. exfalso.
+    destruct (access_holds _ _ _ _ _ Pi NDi Ia) as [m [Im _]].
+    assert (D' : j <> i) by auto.
+    destruct (delete_atomic ops s j i tj ti qj R D' Ej Ei Dj) as [Z _].
+    rewrite (Z Hi) in Im. destruct Im.
+  - (* neither: both hold the node's lock, one of them the write lock *)
+    exfalso.
+    destruct (access_holds _ _ _ _ _ Pi NDi Ia) as [ma [Ima Wa]].
+    destruct (access_holds _ _ _ _ _ Pj NDj Ic) as [mc [Imc Wc]].
+    rewrite <- N in Imc. apply orb_true_iff in W. destruct W as [W|W].
+    + rewrite (Wa W) in Ima. eapply (excl_pair s i j); eauto.
+    + rewrite (Wc W) in Imc. eapply (excl_pair s j i); eauto.
+Qed.
+
+(** The exception is real (known finding 7.17): Leaf.Update through a retained
+    handle is at its write while Delete, holding only the root lock, is in its
+    critical section reading the same leaf. *)
+Definition race_witness_ops : list cop := [CAdd ["a"%string] 1%Z; CHUpdate 1 5%Z; CDelete ["a"%string]].
+Definition race_witness_sched : list nat :=
+  [0;0;0;0;0;0;0;0;0;0;0;0;0;0;0;0; 1;1;1; 2;2;2].
+
+Theorem handle_delete_race_refuted :
+  exists ops s i j ti tj,
+    reach ops s /\ i <> j /\
+    nth_error (thr s) i = Some ti /\ nth_error (thr s) j = Some tj /\
+    is_handle_pc (tpc ti) = true /\ (exists q, tpc tj = PDelCrit q) /\
+    race_between (hp s) ti tj = true.
+Proof.
+  exists race_witness_ops, (run_sched (init_state race_witness_ops) race_witness_sched), 1, 2.
+  eexists. eexists.
+  split; [apply reach_run_sched|]. split; [discriminate|].
+  split; [vm_compute; reflexivity|]. split; [vm_compute; reflexivity|].
+  split; [reflexivity|]. split; [eexists; reflexivity|]. vm_compute. reflexivity.
+Qed.
+
+(** ** concurrent adds survive *)
+
+(** programs that never unlink or overwrite through a handle *)
+Definition quiet_op (o : cop) : bool :=
+  match o with CDelete _ | CHUpdate _ _ => false | _ => true end.
+
+Definition quiet_pc (p : pc) : bool :=
+  match p with
+  | PStart o => quiet_op o
+  | PDel _ | PDelAcq _ | PDelCrit _ | PHUpd _ _ | PHUpdAcq _ _ | PHUpdWrite _ _ => false
+  | _ => true
+  end.
+
+(** contents only grow: a branch keeps every child it has, a leaf stays a leaf *)
+Definition cont_mono (h h' : heap) : Prop :=
+  forall n, match get_cont h n with
+            | CBranch cs => exists cs', get_cont h' n = CBranch cs' /\
+                                        forall k c, assoc k cs = Some c -> assoc k cs' = Some c
+            | CLeaf _ => exists v', get_cont h' n = CLeaf v'
+            | CNil => True
+            end.
+
+Lemma cont_mono_same h h' : (forall n, get_cont h' n = get_cont h n) -> cont_mono h h'.
+Proof.
+  intros H n. rewrite <- (H n). destruct (get_cont h' n); eauto.
+Qed.
+
+Lemma resolve_mono h h' : cont_mono h h' -> forall p n m,
+  resolve h n p = Some m -> resolve h' n p = Some m.
+Proof.
+  intros CM. induction p as [|k r IH]; intros n m E; cbn in *; [exact E|].
+  specialize (CM n). destruct (get_cont h n) as [|v|cs]; try discriminate.
+  destruct CM as [cs' [-> Hcs]]. destruct (assoc k cs) as [c|] eqn:A; [|discriminate].
+  rewrite (Hcs _ _ A). apply IH. exact E.
+Qed.
+
+Definition leaf_at (h : heap) (p : path) : Prop :=
+  exists n v, resolve h 0 p = Some n /\ get_cont h n = CLeaf v.
+
+Lemma leaf_at_mono h h' p : cont_mono h h' -> leaf_at h p -> leaf_at h' p.
+Proof.
+  intros CM [n [v [R L]]]. pose proof (CM n) as C. rewrite L in C. destruct C as [v' C].
+  exists n, v'. split; [eapply resolve_mono; eauto|exact C].
+Qed.
+
+Lemma assoc_app_some {A} k (l l2 : list (string * A)) c :
+  assoc k l = Some c -> assoc k (l ++ l2) = Some c.
+Proof.
+  induction l as [|kc l IH]; cbn; [discriminate|]. destruct (String.eqb k (fst kc)); auto.
+Qed.
+
+Lemma assoc_app_none {A} k (l : list (string * A)) c :
+  assoc k l = None -> assoc k (l ++ [(k, c)]) = Some c.
+Proof.
+  induction l as [|kc l IH]; cbn.
+  - rewrite String.eqb_refl. reflexivity.
+  - destruct (String.eqb k (fst kc)); [discriminate|auto].
+Qed.
+
+Lemma cont_mono_set_app h t0 c0 h2 :
+  t0 < List.length h ->
+  match get_cont h t0 with
+  | CBranch cs => exists cs', c0 = CBranch cs' /\ forall k c, assoc k cs = Some c -> assoc k cs' = Some c
+  | CLeaf _ => exists v', c0 = CLeaf v'
+  | CNil => True
+  end ->
+  cont_mono h (set_cont h t0 c0 ++ h2).
+Proof.
+  intros L H n. destruct (Nat.lt_ge_cases n (List.length h)) as [Ln|Ln].
+  - rewrite get_cont_app_l by (rewrite length_set_cont; auto).
+    destruct (Nat.eq_dec t0 n) as [->|D].
+    + rewrite get_cont_set_eq by auto. destruct (get_cont h n); auto.
+    + rewrite get_cont_set_neq by auto. destruct (get_cont h n); eauto.
+  - rewrite (get_cont_oob h n) by auto. exact I.
+Qed.
+
+Lemma local_step_cont_mono hl hs h p :
+  pc_ok hl hs p -> ids_lt hs (List.length h) -> quiet_pc p = true ->
+  cont_mono h (fst (local_step h p)).
+Proof.
+  intros P IL Q.
+  assert (Id : cont_mono h h) by (apply cont_mono_same; auto).
+  destruct p; cbn -[set_cont new_chain hdelete] in *; try discriminate; auto.
+  - (* terminalAdd *)
+    destruct P as [[r0 ->] _]. inv IL. cbn in *.
+    destruct (get_cont h t) eqn:E; cbn -[set_cont]; auto.
+    + rewrite <- (app_nil_r (set_cont h t (CLeaf v))). apply cont_mono_set_app; auto. rewrite E. exact I.
+    + rewrite <- (app_nil_r (set_cont h t (CLeaf v))). apply cont_mono_set_app; auto. rewrite E. eauto.
+  - destruct (get_cont h t) as [| |cs]; cbn; auto. destruct (assoc k cs); auto.
+  - (* slowAdd *)
+    destruct P as [[r0 ->] _]. inv IL. cbn in *.
+    destruct (get_cont h t) as [| |cs] eqn:E; cbn -[set_cont new_chain]; auto.
+    + apply cont_mono_set_app; auto. rewrite E. exact I.
+    + destruct (assoc k cs) eqn:A; cbn -[set_cont new_chain]; auto.
+      apply cont_mono_set_app; auto. rewrite E. eexists; split; [reflexivity|].
+      intros; apply assoc_app_some; auto.
+  - destruct p as [|k r]; cbn; auto. destruct (get_cont h t) as [| |cs]; cbn; auto.
+    destruct (assoc k cs); auto.
+  - destruct k; auto.
+  - destruct (query_visits (get_cont h t) q); auto.
+  - destruct fr as [|[|[[c pre0] q0] todo] fr]; auto.
+Qed.
+
+Lemma tstep_cont_mono b h t h' t' :
+  thread_ok (List.length h) t -> quiet_pc (tpc t) = true ->
+  tstep_gen b h t = Some (h', t') -> cont_mono h h'.
+Proof.
+  intros [_ [IL P]] Q ST. pose proof (tstep_shape _ _ _ _ _ ST) as SH.
+  destruct (lockop_of t).
+  - destruct SH as [-> _]. eapply local_step_cont_mono; eauto.
+  - destruct SH as [_ [-> _]]. apply cont_mono_same. intros; apply get_cont_upd_mu; auto.
+  - destruct SH as [-> _]. apply cont_mono_same. intros; apply get_cont_upd_mu; auto.
+  - destruct SH as [_ [-> _]]. apply cont_mono_same. intros; apply get_cont_upd_mu; auto.
+  - destruct SH as [n [m [hs [_ [-> _]]]]]. apply cont_mono_same.
+    intros; destruct m; apply get_cont_upd_mu; auto.
+Qed.
+
+Ltac qfin :=
+  repeat (match goal with
+          | H : context [match ?x with _ => _ end] |- _ => is_var x; destruct x
+          | |- context [match ?x with _ => _ end] => is_var x; destruct x
+          end; cbn in *; try discriminate; auto).
+
+Lemma tstep_quiet b h t h' t' :
+  quiet_pc (tpc t) = true -> tstep_gen b h t = Some (h', t') -> quiet_pc (tpc t') = true.
+Proof.
+  intros Q ST. pose proof (tstep_shape _ _ _ _ _ ST) as SH.
+  destruct t as [o p hs]. cbn [tpc top held] in *.
+  destruct (lockop_of (TH o p hs)) eqn:LO.
+  - destruct SH as [_ ->]. cbn [tpc].
+    destruct p; cbn -[Nat.ltb hdelete set_cont new_chain] in *; try discriminate; auto;
+    repeat (first
+              [ match goal with |- context [start_pc ?a ?b] => destruct b end
+              | match goal with |- context [match get_cont ?a ?b with _ => _ end] => destruct (get_cont a b) end
+              | match goal with |- context [match assoc ?a ?b with _ => _ end] => destruct (assoc a b) end
+              | match goal with |- context [if Nat.ltb ?a ?b then _ else _] => destruct (Nat.ltb a b) end
+              | match goal with |- context [match query_visits ?a ?b with _ => _ end] => destruct (query_visits a b) end
+              | match goal with |- context [match ?x with _ => _ end] => is_var x; destruct x end ];
+            cbn -[Nat.ltb hdelete set_cont new_chain] in *; try discriminate; auto).
+  - destruct SH as [_ [_ ->]]. cbn [tpc]. destruct p; cbn in *; try discriminate; auto; qfin.
+  - destruct SH as [_ ->]. cbn [tpc]. destruct p; cbn in *; try discriminate; auto; qfin.
+  - destruct SH as [_ [_ ->]]. cbn [tpc]. destruct p; cbn in *; try discriminate; auto; qfin.
+  - destruct SH as [n [m [hs' [_ [_ ->]]]]]. cbn [tpc]. destruct p; cbn in *; try discriminate; auto; qfin.
+Qed.
+
+Definition add_ok (h : heap) (t : thread) : Prop :=
+  match top t with
+  | CAdd p v =>
+      match tpc t with
+      | PStart o => o = CAdd p v
+      | PAddEnter t0 p' v' =>
+          v' = v /\ exists pre, p = pre ++ p' /\ resolve h 0 pre = Some t0
+      | PAddIRead t0 k r v' | PAddIRel t0 k r v' | PAddUpg t0 k r v'
+      | PAddUAcq t0 k r v' | PAddSlow t0 k r v' =>
+          v' = v /\ exists pre, p = pre ++ k :: r /\ resolve h 0 pre = Some t0
+      | PAddTAcq t0 v' | PAddTCrit t0 v' => v' = v /\ resolve h 0 p = Some t0
+      | PUnwind (UDone (XAdd true)) | PDone (XAdd true) | PHRel (XAdd true) => leaf_at h p
+      | _ => True
+      end
+  | _ => True
+  end.
+
+Lemma add_ok_mono h h' t : cont_mono h h' -> add_ok h t -> add_ok h' t.
+Proof.
+  intros CM. unfold add_ok. destruct (top t); auto. destruct (tpc t); auto.
+  all: try (intros [E [pre [Ep R]]]; split; [auto|]; exists pre; split; [auto|];
+            eapply resolve_mono; eauto).
+  all: try (intros [E R]; split; [auto|]; eapply resolve_mono; eauto).
+  - destruct r; auto. destruct ok; auto. apply leaf_at_mono; auto.
+  - destruct k; auto. destruct r; auto. destruct ok; auto. apply leaf_at_mono; auto.
+  - destruct r; auto. destruct ok; auto. apply leaf_at_mono; auto.
+Qed.
+
+Lemma resolve_snoc h pre : forall n t0 cs k c,
+  resolve h n pre = Some t0 -> get_cont h t0 = CBranch cs -> assoc k cs = Some c ->
+  resolve h n (pre ++ [k]) = Some c.
+Proof.
+  induction pre as [|a pre IH]; intros n t0 cs k c R E A; cbn in *.
+  - inv R. rewrite E, A. reflexivity.
+  - destruct (get_cont h n) as [| |ds]; try discriminate.
+    destruct (assoc a ds); [|discriminate]. eapply IH; eauto.
+Qed.
+
+Lemma app_snoc_cons {A} (pre : list A) k r : pre ++ k :: r = (pre ++ [k]) ++ r.
+Proof. rewrite <- app_assoc. reflexivity. Qed.
+
+Lemma add_ok_step b h t h' t' :
+  thread_ok (List.length h) t -> quiet_pc (tpc t) = true -> add_ok h t ->
+  tstep_gen b h t = Some (h', t') -> add_ok h' t'.
+Proof.
+  intros TO Q A ST.
+  pose proof (tstep_cont_mono _ _ _ _ _ TO Q ST) as CM.
+  pose proof (tstep_shape _ _ _ _ _ ST) as SH.
+  destruct TO as [_ [IL P]].
+  destruct t as [o p hs]. unfold add_ok in *. cbn [top tpc held] in *.
+  destruct o as [pa va| | | | |];
+    try (destruct (lockop_of (TH _ p hs)); repeat match goal with
+                                                  | H : _ /\ _ |- _ => destruct H
+                                                  | H : exists _, _ |- _ => destruct H
+                                                  end; subst; exact I).
+  assert (RM : forall q n m, resolve h n q = Some m -> resolve h' n q = Some m)
+    by (intros; eapply resolve_mono; eauto).
+  destruct p; cbn -[set_cont new_chain hdelete] in SH, Q; try discriminate.
+  - (* PStart *) destruct SH as [_ ->]. cbn [top tpc]. subst o. cbn.
+    split; [auto|]. exists []. split; [reflexivity|reflexivity].
+  - (* PAddEnter *) destruct A as [-> [pre [-> R]]]. destruct p as [|k r]; cbn in SH.
+    + destruct SH as [_ ->]. cbn. split; [auto|]. rewrite app_nil_r. auto.
+    + destruct SH as [_ [_ ->]]. cbn. split; [auto|]. exists pre. auto.
+  - (* PAddTAcq *) destruct A as [-> R]. destruct SH as [_ [_ ->]]. cbn. auto.
+  - (* PAddTCrit *) destruct A as [-> R]. destruct SH as [Eh ->]. cbn [top tpc].
+    cbn -[set_cont] in Eh. destruct P as [[r0 ->] _]. inv IL. cbn in *.
+    destruct (get_cont h t) eqn:E; cbn -[set_cont] in *; auto.
+    + try subst h'. exists t, va. split; [auto|apply get_cont_set_eq; auto].
+    + try subst h'. exists t, va. split; [auto|apply get_cont_set_eq; auto].
+  - (* PAddIRead *) destruct A as [-> [pre [-> R]]]. destruct SH as [Eh ->]. cbn [top tpc].
+    destruct (get_cont h t) as [| |cs] eqn:E; cbn in *; try subst h'.
+    + split; [auto|]. exists pre. auto.
+    + exact I.
+    + destruct (assoc k cs) as [c|] eqn:As; cbn.
+      * split; [auto|]. exists (pre ++ [k]). split; [apply app_snoc_cons|].
+        eapply resolve_snoc; eauto.
+      * split; [auto|]. exists pre. auto.
+  - (* PAddIRel *) destruct A as [-> [pre [-> R]]]. destruct SH as [n [m [hs' [_ [_ ->]]]]]. cbn.
+    split; [auto|]. exists pre. auto.
+  - (* PAddUpg *) destruct A as [-> [pre [-> R]]]. destruct SH as [_ ->]. cbn.
+    split; [auto|]. exists pre. auto.
+  - (* PAddUAcq *) destruct A as [-> [pre [-> R]]]. destruct SH as [_ [_ ->]]. cbn.
+    split; [auto|]. exists pre. auto.
+  - (* PAddSlow *) destruct A as [-> [pre [-> R]]]. destruct SH as [Eh ->]. cbn [top tpc].
+    destruct P as [[r0 ->] _]. inv IL. cbn in *.
+    destruct (get_cont h t) as [| |cs] eqn:E; cbn -[set_cont new_chain] in *.
+    + split; [auto|]. exists (pre ++ [k]). split; [apply app_snoc_cons|].
+      eapply resolve_snoc; [apply RM; eauto| |].
+      * try subst h'. rewrite get_cont_app_l by (rewrite length_set_cont; auto).
+        apply get_cont_set_eq; auto.
+      * cbn. rewrite String.eqb_refl. reflexivity.
+    + exact I.
+    + destruct (assoc k cs) as [c|] eqn:As; cbn -[set_cont new_chain] in *.
+      * try subst h'. split; [auto|]. exists (pre ++ [k]). split; [apply app_snoc_cons|].
+        eapply resolve_snoc; eauto.
+      * split; [auto|]. exists (pre ++ [k]). split; [apply app_snoc_cons|].
+        eapply resolve_snoc; [apply RM; eauto| |].
+        -- try subst h'. rewrite get_cont_app_l by (rewrite length_set_cont; auto).
+           apply get_cont_set_eq; auto.
+        -- apply assoc_app_none; auto.
+  - (* PGetEnter *) destruct SH as [_ [_ ->]]. exact I.
+  - (* PGetRead *) destruct SH as [_ ->]. cbn [top tpc]. destruct p as [|k r]; cbn; auto.
+    destruct (get_cont h t) as [| |cs]; cbn; auto. destruct (assoc k cs); cbn; auto.
+  - (* PUnwind *) destruct hs as [|[n m] r0].
+    + destruct SH as [_ ->]. cbn [top tpc]. destruct k as [r|n]; cbn; auto.
+      destruct r; auto. destruct ok; auto. eapply leaf_at_mono; eauto.
+    + destruct SH as [n' [m' [hs' [_ [_ ->]]]]]. cbn [top tpc after_lock].
+      destruct k as [r|n0]; auto. destruct r; auto. destruct ok; auto. eapply leaf_at_mono; eauto.
+  - destruct SH as [_ [_ ->]]. exact I.
+  - destruct SH as [_ ->]. exact I.
+  - destruct SH as [n' [m' [hs' [_ [_ ->]]]]]. cbn. destruct r; auto. destruct ok; auto.
+    eapply leaf_at_mono; eauto.
+  - destruct SH as [_ [_ ->]]. exact I.
+  - destruct SH as [_ ->]. cbn [top tpc]. destruct (query_visits (get_cont h t) q); exact I.
+  - destruct SH as [_ ->]. exact I.
+  - destruct fr as [|[|[[c pre0] q0] todo] fr]; cbn in SH.
+    + destruct SH as [_ ->]. exact I.
+    + destruct SH as [n' [m' [hs' [_ [_ ->]]]]]. exact I.
+    + destruct SH as [_ ->]. exact I.
+Qed.
+
+Definition AInv (s : state) : Prop :=
+  Inv s /\ Forall (fun t => quiet_pc (tpc t) = true) (thr s) /\ Forall (add_ok (hp s)) (thr s).
+
+Lemma AInv_step s i s' : AInv s -> step s i = Some s' -> AInv s'.
+Proof.
+  intros [I [Q A]] ST. pose proof (Inv_step _ _ _ _ I ST) as I'.
+  split; [exact I'|]. unfold step, step_gen in ST.
+  destruct (nth_error (thr s) i) as [t|] eqn:Et; [|discriminate].
+  destruct (tstep_gen false (hp s) t) as [[h' t']|] eqn:Ets; [|discriminate]. inv ST. cbn [hp thr].
+  destruct I as [HO [TO _]].
+  pose proof (Forall_nth_error _ _ _ _ TO Et) as Tt.
+  pose proof (Forall_nth_error _ _ _ _ Q Et) as Qt. cbn beta in Qt.
+  pose proof (Forall_nth_error _ _ _ _ A Et) as At.
+  pose proof (tstep_cont_mono _ _ _ _ _ Tt Qt Ets) as CM.
+  split.
+  - apply Forall_forall. intros t0 H0. apply In_set_nth in H0. destruct H0 as [->|H0].
+    + eapply tstep_quiet; [exact Qt|exact Ets].
+    + rewrite Forall_forall in Q. auto.
+  - apply Forall_forall. intros t0 H0. apply In_set_nth in H0. destruct H0 as [->|H0].
+    + eapply add_ok_step; eauto.
+    + rewrite Forall_forall in A. eapply add_ok_mono; eauto.
+Qed.
+
+Lemma AInv_init ops : forallb quiet_op ops = true -> AInv (init_state ops).
+Proof.
+  intros Q. split; [apply Inv_init|]. rewrite forallb_forall in Q. cbn. split.
+  - apply Forall_forall. intros t Ht. apply in_map_iff in Ht. destruct Ht as [o [<- Ho]]. cbn. auto.
+  - apply Forall_forall. intros t Ht. apply in_map_iff in Ht. destruct Ht as [o [<- Ho]].
+    unfold add_ok. cbn. destruct o; auto.
+Qed.
+
+Lemma reach_AInv ops s : forallb quiet_op ops = true -> reach ops s -> AInv s.
+Proof. intros Q R. induction R; [apply AInv_init; auto|eapply AInv_step; eauto]. Qed.
+
+(** the thread with index i always executes the i-th call of the program *)
+Lemma reach_top ops s : reach ops s -> map top (thr s) = ops.
+Proof.
+  induction 1 as [|s i s' R IHreach H0].
+  - cbn. rewrite map_map. cbn. apply map_id.
+  - unfold step, step_gen in H0.
+    destruct (nth_error (thr s) i) as [t|] eqn:Et; [|discriminate].
+    destruct (tstep_gen false (hp s) t) as [[h' t']|] eqn:Ets; [|discriminate]. inv H0. cbn [thr].
+    pose proof (tstep_shape _ _ _ _ _ Ets) as SH.
+    assert (T : top t' = top t).
+    { destruct (lockop_of t); repeat match goal with
+                                     | H : _ /\ _ |- _ => destruct H
+                                     | H : exists _, _ |- _ => destruct H
+                                     end; subst; reflexivity. }
+    clear - Et T. revert i Et.
+    induction (thr s) as [|a l IH]; intros [|i] Et; cbn in *; try discriminate.
+    + inv Et. rewrite T. reflexivity.
+    + f_equal. eauto.
+Qed.
+
+(** Concurrent adds all survive: in any run of any set of Adds, lookups,
+    queries and handle reads (no Delete, no Update through a handle), under
+    every interleaving -- including any number of threads inside the
+    reader->writer exchange window of the same node -- an Add that returned
+    success has its path stored as a leaf in every later state. *)
+Theorem concurrent_adds_survive ops s i t p v :
+  forallb quiet_op ops = true -> reach ops s ->
+  nth_error (thr s) i = Some t -> nth_error ops i = Some (CAdd p v) ->
+  tpc t = PDone (XAdd true) -> leaf_at (hp s) p.
+Proof.
+  intros Q R Et Eo D. destruct (reach_AInv _ _ Q R) as [_ [_ A]].
+  pose proof (Forall_nth_error _ _ _ _ A Et) as At.
+  assert (T : top t = CAdd p v).
+  { pose proof (reach_top _ _ R) as M. rewrite <- M in Eo.
+    rewrite nth_error_map, Et in Eo. cbn in Eo. inv Eo. reflexivity. }
+  unfold add_ok in At. rewrite T, D in At. exact At.
+Qed.
+
+(** the re-check after the lock exchange: no step of an Add ever replaces or
+    removes a child that is already there (every stored path keeps resolving
+    to the same node) *)
+Theorem upgrade_recheck ops s i s' p n :
+  forallb quiet_op ops = true -> reach ops s -> step s i = Some s' ->
+  resolve (hp s) 0 p = Some n -> resolve (hp s') 0 p = Some n.
+Proof.
+  intros Q R ST E. destruct (reach_AInv _ _ Q R) as [[HO [TO _]] [Qs _]].
+  unfold step, step_gen in ST.
+  destruct (nth_error (thr s) i) as [t|] eqn:Et; [|discriminate].
+  destruct (tstep_gen false (hp s) t) as [[h' t']|] eqn:Ets; [|discriminate]. inv ST. cbn [hp].
+  eapply resolve_mono; [|exact E].
+  eapply tstep_cont_mono; [| |exact Ets].
+  - eapply Forall_nth_error; eauto.
+  - apply (Forall_nth_error _ _ _ _ Qs Et).
+Qed.
+
+(** non-vacuity: four adders beneath a branch that does not exist yet, all
+    parked in the exchange window of the root, then released one by one *)
+Definition adds4 : list cop :=
+  [CAdd ["a"; "b"; "x"]%string 1%Z; CAdd ["a"; "b"; "y"]%string 2%Z;
+   CAdd ["a"; "c"]%string 3%Z; CAdd ["a"; "b"; "z"]%string 4%Z].
+
+Definition adds4_sched : list nat :=
+  (* each runs to add:upgrade at the root: PStart, RLock, read, RUnlock *)
+  [0;0;0;0; 1;1;1;1; 2;2;2;2; 3;3;3;3] ++
+  repeat 2 40 ++ repeat 0 40 ++ repeat 3 40 ++ repeat 1 40.
+
+Example concurrent_adds_survive_example :
+  let s := run_sched (init_state adds4) adds4_sched in
+  map tpc (thr s) = [PDone (XAdd true); PDone (XAdd true); PDone (XAdd true); PDone (XAdd true)]
+  /\ map (fun t => match tpc t with PAddUpg 0 _ _ _ => true | _ => false end)
+         (thr (run_sched (init_state adds4) (firstn 16 adds4_sched))) = [true; true; true; true]
+  /\ leaves_of (hp s)
+     = [(["a"; "c"], 3); (["a"; "b"; "x"], 1); (["a"; "b"; "z"], 4); (["a"; "b"; "y"], 2)]%string%Z.
+Proof. vm_compute. repeat split. Qed.
